@@ -181,6 +181,13 @@ def _change_pivot(
     return new_dr, new_phi0, new_dz, new_error
 
 
+def _error_or_none(helix):
+    """Error matrix of a single helix: records without one have no `error` field at all."""
+    if isinstance(helix, ak.Record):
+        return helix["error"] if "error" in helix.fields else None
+    return helix.error
+
+
 def _obj_isclose(self, other, *, rtol: float, atol: float, equal_nan: bool) -> bool:
     kwargs = {"rtol": rtol, "atol": atol, "equal_nan": equal_nan}
     other = other.change_pivot(self.pivot)
@@ -198,8 +205,10 @@ def _obj_isclose(self, other, *, rtol: float, atol: float, equal_nan: bool) -> b
         and np.isclose(np.abs(self_pivot - other_pivot), 0, **kwargs)
     )
 
-    if self.error is not None and other.error is not None:
-        condition = condition and np.allclose(self.error, other.error, **kwargs)
+    self_error = _error_or_none(self)
+    other_error = _error_or_none(other)
+    if self_error is not None and other_error is not None:
+        condition = condition and np.allclose(self_error, other_error, **kwargs)
 
     return bool(condition)
 
